@@ -104,7 +104,7 @@ class ProgGen:
             "words.first", "nums", "nums.size", "nums[1]", "ghost", "ghost.x.y", "user.ghost",
             "products[99].title", "user.tags[n]", "now", "forloop.index", "forloop.parentloop.index0",
             "who", "item", "item.title", "item.price", "p.title", "args", "kwargs", "block.super",
-            "n.size", "user.age.first", "flag.last", "s.first", "s.last", "s.size", "nothing.first", "m.last",
+            "matter_ns", "matter_ns", "n.size", "user.age.first", "flag.last", "s.first", "s.last", "s.size", "nothing.first", "m.last",
         ]
         if self.locals and r.random() < 0.3:
             return r.choice(self.locals)
@@ -515,12 +515,17 @@ class ProgGen:
         r = self.rng
         name = r.choice(["greet", "'price'", "row", "m1"])
         self.macros.append(name)
-        params = r.choice(["", "you", "you, greeting: 'Hi'", "p, on_sale: false", "a, b: n, c: user.name"])
+        params = r.choice(["", "you", "you, greeting: 'Hi'", "p, on_sale: false", "a, b: n, c: user.name",
+                           "s, n", "user, t: s", "products, who", "flag, m: 1"])   # parameters named like render globals
         body = self.block(depth + 1, 2) + self.out(r.choice(["you", "greeting", "p.title", "args", "kwargs", "a", "b", "c",
-                                                            "args | join: '-'", "kwargs.z"]))
+                                                            "args | join: '-'", "kwargs.z", "s", "n", "user.name", "who",
+                                                            "products.size", "flag", "m"]))
         if self.allow_partials and r.random() < 0.25:
             body += self.n_render(self.max_depth) if r.random() < 0.6 else self.n_include(self.max_depth)
-        return self.tag(f"macro {name} {params}".rstrip()) + body + self.tag("endmacro")
+        out = self.tag(f"macro {name} {params}".rstrip()) + body + self.tag("endmacro")
+        if r.random() < 0.35:   # called at once, with fewer arguments than parameters
+            out += self.tag(f"call {name}" + (" " + self.primitive() if r.random() < 0.3 else ""))
+        return out
 
     def n_call(self, depth):
         r = self.rng
